@@ -510,3 +510,10 @@ def run_import(case, out):
                 out.fail("import:second_import_of_same_frame_differs", sub.violations[0][0] + " " + sub.violations[0][1])
     if not case["give_version"] and hasattr(m, "version"):
         out.check(float(m.version) == float(v), "import:version_detection", f"{m.version} vs {v}")
+
+
+# rejected calls that run before every case (vlib/faults.py): nothing they leave behind - module state, library options,
+# stray files - may make the valid calls of the case violate the statement
+from vlib import faults as _faults  # noqa: E402
+
+fault_calls = _faults.for_property(ID)
